@@ -83,8 +83,8 @@ class FaultyFuncs:
 
 def gen_script(rng):
     g = prog.Gen(rng, profile="py", tag_calls=True, max_ops=rng.choice([6, 9, 12]),
-                 call_bias=rng.choice([0.1, 0.2, 0.3]))
-    # bias towards calls
+                 call_bias=rng.choice([0.1, 0.2, 0.3]), stencil_bias=0.55)
+    # bias towards calls (and towards neighbouring loops over one range)
     sc = g.script()
     sc["run"] = {"max_steps": rng.randint(2, 5)}
     sc["event_cap"] = 40
@@ -323,8 +323,10 @@ def gen_guard_calls(rng):
         if r < 0.2:
             cond = None
         elif r < 0.4:
-            # a guard without a call, from a small pool: several statements of a chain carry the SAME guard
-            cond = ["cmp", "<", ["var", GC_VARS[0]], ["num", rng.choice([100, 100, 4])]]
+            # a guard without a call, from a small pool: several statements of a chain carry the SAME guard.  It reads
+            # a variable that no statement of the chain writes: neighbours with equal guards are merged under one
+            # 'if', which presumes that a guard keeps its value (the builder's flags are assigned once)
+            cond = ["cmp", "<", ["var", "<state>ro"], ["num", rng.choice([100, 100, 0.5])]]
         elif r < 0.6:
             cond = ["cmp", rng.choice([">", "<"]), call("<func>c"), ["num", rng.choice([0, 0.5, -0.5])]]
         elif r < 0.8:
@@ -338,7 +340,8 @@ def gen_guard_calls(rng):
     return {"guard_calls": True, "stmts": stmts, "t0": 0.0, "dt0": 0.5,
             # (the chain's order is expressed through Nop statements: s1 <- n0 <- s0 instead of s1 <- s0)
             "nop_links": rng.random() < 0.5,
-            "state": {"a": rng.choice([1.0, 2.0, -1.0]), "b": rng.choice([0.5, 3.0]), "c": rng.choice([-2.0, 1.5])},
+            "state": {"a": rng.choice([1.0, 2.0, -1.0]), "b": rng.choice([0.5, 3.0]), "c": rng.choice([-2.0, 1.5]),
+                      "ro": 1.0},
             "run": {"max_steps": rng.randint(2, 3)}, "event_cap": 40}
 
 
